@@ -257,3 +257,13 @@ package inprocgrpc
 //@   ensures[C08] clean_end_is_success: lastresult("(*inProcessClientStream).recvMsgLocked") == io.EOF ==> result == nil
 //@   ensures[C02,C08] a_failure_after_the_message_takes_precedence: lastresult("(*inProcessClientStream).recvMsgLocked") != nil && lastresult("(*inProcessClientStream).recvMsgLocked") != io.EOF ==> result == lastresult("(*inProcessClientStream).recvMsgLocked")
 //@   modifies s.state, s.last, s.headers, s.trailers, mem("metadata.MD"), mem("error"), external
+//
+//@ func (*inProcessClientStream).Header
+//@   ensures[C03] returns_the_headers_seen_so_far: result1 == nil ==> result0 == s.headers
+//@   assert_call[C04,C01] readMessage : first_frame_with_the_stream_context: arg0 == s.ctx && arg1 == s.responses && at_lock(s.state) == 0
+//@   ensures[C04] receive_failure_is_returned: called(readMessage) && lastresult(readMessage, 1) != nil && lastresult(readMessage, 1) != io.EOF ==> result0 == nil && result1 == lastresult(readMessage, 1)
+//@   ensures[C03] reads_at_most_one_frame: calls(readMessage) <= 1
+//@   assert_call[C03] (*internal.CallOptions).SetHeaders : header_frame_to_stream_and_options: arg0 == s.copts && arg1 == m.headers && s.headers == m.headers && m.headers != nil
+//@   assert_call[C03] (*internal.CallOptions).SetTrailers : trailer_frame_to_stream_and_options: arg0 == s.copts && arg1 == m.trailers && s.trailers == m.trailers && m.trailers != nil && m.headers == nil && m.data == nil
+//@   ensures[C01,C02] a_data_or_error_frame_is_kept_for_the_next_receive: called(readMessage) && lastresult(readMessage, 1) == nil && lastresult(readMessage, 0).headers == nil && (lastresult(readMessage, 0).data != nil || lastresult(readMessage, 0).trailers == nil) ==> s.last != nil && s.last.data == lastresult(readMessage, 0).data && s.last.err == lastresult(readMessage, 0).err
+//@   modifies s.state, s.last, s.headers, s.trailers, mem("metadata.MD"), mem("inprocgrpc.frame"), external
